@@ -96,6 +96,9 @@ def compare(lead: bytes, sent: list[bytes], spec, ctx) -> None:
         )
         return
     for i, o in enumerate(obs):
+        if o.get("changed_later"):
+            ctx.violation("C05:readout-changed-after-return", f"readout #{i} answered differently (bytes/validity/payload) after later read() calls", case)
+            return
         if o["valid"] is not True:
             ctx.violation("C05:clean-readout-invalid", f"readout #{i} returned byte-identical but is_valid={o['valid']!r} {list(o['exceptions'])}", case)
             return
